@@ -961,7 +961,8 @@ def coq_case5(c, o):
     d = (f"{{| e_directed := {cbool(c['directed'])}; e_ids := {clist(c['ids'], cz)}; e_edges := {cedges(c['edges'])}; "
          f"e_spatial := {cnat(sum(1 for a in c['axes'] if a == 'space'))}; e_sphere := {cdecl(c['sphere'], csphere)}; "
          f"e_ellipsoid := {cdecl(c['ellipsoid'], cellipsoid)}; e_track := {track} |}}")
-    ob = "OData5 (Ok tt) None" if o[0] == "ok" else f"OData5 (Err {o[1]}) (Some {o[3] if len(o) > 3 else 'FUnknown'})"
+    fault = o[3] if len(o) > 3 else "FUnknown"
+    ob = "OData5 (Ok tt) None" if o[0] == "ok" else (f"OData5 (Err {o[1]}) None" if fault == "FUnknown" else f"OData5 (Err {o[1]}) (Some {fault})")
     return f"(IData5 {cfg} {d}, {ob})"
 
 
@@ -1128,6 +1129,12 @@ def oracle_data(c, o):
         if not exp:
             return Failure(c, o, f"no validator is enabled with a declared property, but validate_data raised {o[1]} ({fault})",
                            dict(tags, why="rejects-valid"))
+        if group is None and fault == "FUnknown" and o[1] == "ValueError":
+            # a ValueError whose message the harness cannot classify (the wording is not part of the property): judged by class --
+            # acceptable exactly when some enabled validator with a declared property must reject (or the documents leave it open)
+            if rejecting or undefined:
+                return None
+            return Failure(c, o, "validate_data raised ValueError although every enabled validator must accept", dict(tags, why="rejects-valid"))
         if group is None:
             if not undefined:
                 return Failure(c, o, f"validate_data raised {o[1]} ({fault})", dict(tags, why="exception-class"))
